@@ -27,6 +27,24 @@ fn mark_call_start(task: usize) {
     unsafe { CALL_START[task] = notify_count(task) };
 }
 
+/// Native replay only: `FutWait::fut_wait` names `::std::thread::sleep` by absolute path, which is
+/// redirected to the shim (and so to the `slept` flag) with `#[kani::stub]` under Kani; natively the
+/// real sleep runs, so a call that takes >= 90 ms is what "slept inside the call" looks like.
+#[cfg(not(kani))]
+fn timed<R>(f: impl FnOnce() -> R) -> R {
+    let t0 = std::time::Instant::now();
+    let r = f();
+    if t0.elapsed() >= std::time::Duration::from_millis(90) {
+        sched::st().slept = true;
+    }
+    r
+}
+#[cfg(kani)]
+#[inline(always)]
+fn timed<R>(f: impl FnOnce() -> R) -> R {
+    f()
+}
+
 pub fn woken_since_last_call(task: usize) -> bool {
     notify_count(task) > unsafe { CALL_START[task] }
 }
@@ -36,7 +54,7 @@ pub fn op_start_send<F: FutFl>(slot: usize, tx: usize, id: u8, task: usize) {
     mark_call_start(task);
     set_task(task);
     let t = unsafe { (*std::ptr::addr_of_mut!((*wp::<F>()).tx[tx])).as_mut().unwrap() };
-    let res = match F::start_send(t, F::P::mk(id)) {
+    let res = match timed(|| F::start_send(t, F::P::mk(id))) {
         SS::Ready => R_OK,
         SS::NotReady(v) => {
             assert!(v.id() == id, "C15: start_send returned a different message in NotReady");
@@ -56,7 +74,7 @@ pub fn op_poll<F: FutFl>(slot: usize, rx: usize, task: usize) {
     mark_call_start(task);
     set_task(task);
     let r = unsafe { (*std::ptr::addr_of_mut!((*wp::<F>()).rx[rx])).as_mut().unwrap() };
-    match F::poll(r) {
+    match timed(|| F::poll(r)) {
         Some(Some(v)) => ledger::end_recv(slot, R_OK, v.id()),
         Some(None) => ledger::end_recv(slot, R_DISC, 0),
         None => ledger::end_recv(slot, R_NOTREADY, 0),
@@ -69,7 +87,7 @@ pub fn op_u_poll<F: FutFl>(slot: usize, ux: usize, task: usize) {
     mark_call_start(task);
     set_task(task);
     let u = unsafe { (*std::ptr::addr_of_mut!((*wp::<F>()).ux[ux])).as_mut().unwrap() };
-    match F::u_poll(u) {
+    match timed(|| F::u_poll(u)) {
         Some(Some(id)) => ledger::end_recv(slot, R_OK, id),
         Some(None) => ledger::end_recv(slot, R_DISC, 0),
         None => ledger::end_recv(slot, R_NOTREADY, 0),
@@ -309,7 +327,7 @@ pub fn fut_history<F: FutFl, const DEPTH: usize>(cap: u64, n: u8) {
                     next_id += 1;
                     let full = sent - cur >= n;
                     if c == 0 {
-                        match F::start_send(tx, F::P::mk(id)) {
+                        match timed(|| F::start_send(tx, F::P::mk(id))) {
                             SS::Ready => {
                                 assert!(!full, "C15: start_send accepted a value although N values are outstanding");
                                 log[sent as usize % 12] = id;
@@ -339,7 +357,7 @@ pub fn fut_history<F: FutFl, const DEPTH: usize>(cap: u64, n: u8) {
             }
             1 => {
                 let r = w.rx[0].as_mut().unwrap();
-                match F::poll(r) {
+                match timed(|| F::poll(r)) {
                     Some(Some(v)) => {
                         assert!(cur < sent && v.id() == log[cur as usize % 12], "C15: the stream yielded a value the model does not predict");
                         cur += 1;
